@@ -108,6 +108,13 @@ def bcat(*parts):
     return bwrap(out)
 
 
+def mkbuf(n, fill=0):
+    """a writable buffer of n bytes pre-filled with ``fill`` (SBytes in symbolic mode, bytearray natively)"""
+    if core.ENG is not None and core.ENG.mode == 'sym':
+        return SBytes([fill] * n, kind='bytearray')
+    return bytearray([fill]) * n
+
+
 def blen(x):
     return len(x)
 
